@@ -15,21 +15,21 @@ type GenOpts struct {
 	Filters       []string
 	MaxDepth      int
 	NoFiles       bool
-	ErrorRate     int // percent chance of deliberately wrong constructs (unknown names, wrong arity ...)
+	ErrorRate     int      // percent chance of deliberately wrong constructs (unknown names, wrong arity ...)
 	CtxVars       []string // extra context variable names usable as plain values
 	CtxVarBias    int      // percent chance to pick one of CtxVars (default 50)
 }
 
 type Gen struct {
-	r      *Rng
-	o      GenOpts
-	files  map[string]string
-	locals []string
-	nfile  int
-	macros []genMacro
-	inFile int // nesting depth of file generation
+	r           *Rng
+	o           GenOpts
+	files       map[string]string
+	locals      []string
+	nfile       int
+	macros      []genMacro
+	inFile      int // nesting depth of file generation
 	inFilterTag bool
-	blocks int
+	blocks      int
 }
 
 type genMacro struct {
